@@ -110,6 +110,19 @@ def r1(ctx):
         ctx.check(not wraps, rule, 'file::FileLen|totals-do-not-wrap', (wraps[0].where() if wraps else lib.body(ops[0]).where()), 'FileLen + and * saturate (or check) instead of overflowing',
                   'the byte totals are computed with the plain `+` and `*` of u64 (%s): three hard links to a sparse file of 2^63-1 bytes make the debug build panic ("attempt to add with overflow", no '
                   'report at all) and the release build print a wrapped Total that is smaller than Redundant' % ', '.join(x.path for x in wraps))
+    # ... and so do the COUNTS next to them: missing_count() is as large as the --rf-under value the user gave (any usize), so two groups are enough
+    cnt_bodies = [b] + [lib.body(cp) for cp in lib.closures_of(b.path)] + [x for x in [lib.body('group::stage_stats')] if x is not None]
+    plain_cnt = []
+    for x in cnt_bodies:
+        for blk in x.blocks:
+            for st in blk['stmts']:
+                if st['rv']['k'] in ('bin', 'checked_bin') and str(st['rv'].get('op', '')).startswith('Add'):
+                    sl_ = backslice(x, [st['rv']['a']]) , backslice(x, [st['rv']['b']])
+                    if any(k.matches(r'::(redundant_count|missing_count|reported_count)$') for y in sl_ for k in y.calls):
+                        plain_cnt.append((x, st))
+    ctx.check(not plain_cnt, rule, P + '|counts-do-not-wrap', (plain_cnt[0][0].where(plain_cnt[0][1]['line']) if plain_cnt else b.where()), 'the file counts of the statistics are added with saturating_add',
+              'the numbers of redundant / missing files are added with the plain `+` of usize (%d place(s)): `group --rf-under 10000000000000000000 d` with two groups panics in the debug build '
+              '("attempt to add with overflow", no report) and prints a wrapped count in a build without overflow checks, while the byte total next to it saturates' % len(plain_cnt))
     # the writer receives the same groups and the header built here
     wc = b.calls(r'ReportWriter::<W>::write$|ReportWriter<.*>::write$')
     if ctx.floor(rule, 'ReportWriter::write calls', len(wc), 2, b.where()):
